@@ -8,7 +8,7 @@
            trace-validation stages of props/c08.py). *)
 From Coq Require Import ZArith Bool List.
 From Texel Require Import TT.Entry TT.Table TT.Atomic TT.TBRegion
-     TT.EntryProofs TT.TableProofs TT.AtomicProofs TT.TBRegionProofs TT.TTTheorems.
+     TT.EntryProofs TT.TableProofs TT.AtomicProofs TT.TBRegionProofs TT.TTTheorems TT.BucketProofs.
 Import ListNotations.
 Local Open Scope Z_scope.
 
@@ -152,3 +152,45 @@ Theorem C08_tb_region_disjoint : forall t t' nPieces idx key i,
   usedSize t' <= tb_entry t' (nPositions nPieces) idx < tableSize t'.
 Proof. exact tb_region_disjoint. Qed.
 Print Assumptions C08_tb_region_disjoint.
+
+(** Sequential refinement (insert / probe / setBusy / nextGeneration histories on a table of an
+    admissible size, no tablebase writes): [view t k] is what probe's own search finds for
+    internal key k.  After ANY history, a probe returns exactly the mapped record (generation
+    refreshed, nothing else changes), and an insert either leaves the table alone (replacement
+    guard) or maps its key to the record built from its arguments (on top of the previous record
+    of that key, so the latest record for a key is the one returned), every other key keeping
+    its record except the one in the victim slot chosen by the replacement policy. *)
+Theorem C08_bucket_refines_map : forall t0 ops t,
+  Inv t0 -> Forall (fun o => W64 (op_key o)) ops -> run t0 ops = Ok t ->
+  Inv t /\
+  (forall key0 res t' r, W64 key0 -> probe t key0 res = Ok (t', r) ->
+     let key := Z.lxor key0 (contemptHash t) in
+     match view t key with
+     | None => t' = t /\ r = miss res
+     | Some d =>
+         fst r = key /\
+         snd r = (if negb (getGeneration d =? generation t) then TTEntry_setGeneration d (generation t) else d) /\
+         view t' key = Some (snd r) /\
+         (forall k', k' <> key -> view t' k' = view t k')
+     end) /\
+  (forall key0 m type ply depth0 evalScore busy t', W64 key0 ->
+     insert t key0 m type ply depth0 evalScore busy = Ok t' ->
+     let key := Z.lxor key0 (contemptHash t) in
+     let depth := if depth0 <? 0 then 0 else depth0 in
+     t' = t \/
+     exists idx, in_bucket (getIndex t key) idx /\
+       view t' key = Some (match view t key with
+                           | Some old => build_data old (m_from m =? m_to m) m type ply depth evalScore busy (generation t)
+                           | None => build_data (snd (entry_at t idx)) false m type ply depth evalScore busy (generation t)
+                           end) /\
+       (forall k', 0 <= k' < 2 ^ 64 -> k' <> key ->
+          view t' k' = view t k' \/
+          (view t key = None /\ ekey (entry_at t idx) = k' /\ (k' <> 0 -> view t' k' = None)))).
+Proof. exact bucket_refines_map. Qed.
+Print Assumptions C08_bucket_refines_map.
+
+(** the invariant holds for every freshly constructed table in the property's domain, and no
+    operation of such a history can index outside the table *)
+Theorem C08_bucket_initial : forall n t, 512 <= n < 2 ^ 64 -> new_tt n = Ok t -> Inv t.
+Proof. exact new_tt_inv. Qed.
+Print Assumptions C08_bucket_initial.
